@@ -32,7 +32,8 @@ class KnownFindings:
             if f["property"] != pid or not f["obligation"]:
                 continue
             pat = f["obligation"]
-            if pat == obligation or (pat.endswith("*") and obligation.startswith(pat[:-1])):
+            import fnmatch
+            if pat == obligation or fnmatch.fnmatchcase(obligation, pat):
                 return f
         return None
 
@@ -153,8 +154,10 @@ class Report:
             k[0] += 1
             if o["status"] == "discharged":
                 k[1] += 1
+        nk = len([o for o in self.obligations if o["status"] == "known-finding"])
         cov = {
-            "obligations": n,
+            "obligations": n - nk,
+            "obligations_generated_including_known_findings": n,
             "discharged": disch,
             "known_findings": len([o for o in self.obligations if o["status"] == "known-finding"]),
             "checker_cmd": checker_cmd,
